@@ -7,7 +7,7 @@ HOOK_COMMITS = ["c341338", "65a25d2", "21b6488", "b38e07e", "74004a6", "a523ae9"
 CLAIMED = {
  # id: (engine, category, technique, level text, level note, design ref)
  "C13": ("LOGRT", "exploration",
-         "property-based round-trip + metamorphic hash sensitivity (rapid) on constructor-built chains and on entries written by a real Commander; native fuzz of the JSON decoder in the thorough tier",
+         "property-based round-trip + metamorphic hash sensitivity (rapid) on constructor-built chains, on entries written by a real Commander and on entries written through the real HTTP routers with arbitrary bytes in headers and paths; the stored payload is what the real InsertLogs binds; native fuzz of the JSON decoder in the thorough tier",
          "Generated chains of every log kind x target are pushed through the API JSON form and through an emulated store row and must come back equal and re-hash to the stored hash; exploration of a generated input space with shrinking, not a proof.",
          "Trusted: the jsonb/timestamptz emulation (generic decode with exact numbers, instant truncated to microseconds); log dates are ledger.Now()-shaped (UTC, microseconds); no NUL in strings.",
          "DESIGN.md 5/C13"),
@@ -81,12 +81,12 @@ CLAIMED = {
          "Trusted: model store; crash = goroutines stop at their next gate and un-inserted batches vanish; storeform emulation for the read-back recomputation.",
          "DESIGN.md 5/C05"),
  "C06": ("ENGINE-SIM", "fault_enumeration",
-         "per generated history, exhaustive enumeration of every crash position and every single InsertLogs failure (1 case in 20); a bulk-over-real-engine family shared with C18 (1 in 25); per generated batch, exhaustive enumeration of every failing driver-level step (begin, prepare, row, flush, close, commit) of the real ledgerstore.Store.InsertLogs over a recording SQL driver (1 in 25); plus sampled single runs with crash points, a store fault, failing reads and cancellations drawn with the plan (19 in 20); bijection oracle between success responses and persisted entries",
+         "per generated history, exhaustive enumeration of every crash position and every single InsertLogs failure (1 case in 20); a bulk-over-real-engine family shared with C18 (1 in 25); a shared-bucket family (two ledgers of one bucket, real SQL store for InsertLogs and the key look-up, 1 in 25); per generated batch, exhaustive enumeration of every failing driver-level step (begin, prepare, row, flush, close, commit) of the real ledgerstore.Store.InsertLogs over a recording SQL driver (1 in 25); plus sampled single runs with crash points, a store fault, failing reads and cancellations drawn with the plan (19 in 20); bijection oracle between success responses and persisted entries",
          "For each generated history and schedule the check re-runs it once per scheduler step with the process dying there, and once per InsertLogs call failing: exhaustive over single crash points / single store faults of that history; histories themselves are sampled.",
          "Trusted: model store; the crash model (see DESIGN.md 4.2); attribution of entries to requests through request-chosen tags.",
          "DESIGN.md 5/C06"),
  "C07": ("ENGINE-SIM", "exploration",
-         "stateful property-based testing: duplicated keyed requests x schedules (incl. one request held back while the others run) x restart x failing store reads x cancellations (incl. at the moment of hand-off); invariant: <=1 entry per key, equal outcomes; plus a parallel stress family (real goroutines released together on one key; the schedule is not owned there, the oracle is an invariant)",
+         "stateful property-based testing: duplicated keyed requests x schedules (incl. one request held back while the others run) x restart x failing store reads x cancellations (incl. at the moment of hand-off); invariant: <=1 entry per key, equal outcomes; a shared-bucket family (two ledgers, the key look-up through the real ledgerstore SQL over a recording database: a key is a ledger's own); plus a parallel stress family (real goroutines released together on one key; the schedule is not owned there, the oracle is an invariant)",
          "Generated groups of identical keyed requests (all write kinds) are issued sequentially, racing and across a crash; at most one entry may carry the key and every success must return it.",
          "Trusted: model store; read-back of the keyed log through the storeform emulation.",
          "DESIGN.md 5/C07"),
@@ -106,7 +106,7 @@ CLAIMED = {
          "Trusted: model store; the bubble's fake clock (stands still, so hashes are comparable).",
          "DESIGN.md 5/C14"),
  "C16": ("ENGINE-SIM", "exploration",
-         "stateful property-based testing with the real ledgerMonitor over a recording publisher; oracle: publication <-> persisted entry content match, at-least-once",
+         "stateful property-based testing with the real ledgerMonitor over a recording publisher; oracle: publication <-> persisted entry content match, at-least-once (matching by augmenting paths); a shared-bucket family (events name their ledger and describe its entries)",
          "Every message published during generated histories (real, preview, keyed replay, concurrent) is decoded and must equal an entry persisted at publication time; every acknowledged entry must be published.",
          "Trusted: model store; publication order inside one request is the code's own.",
          "DESIGN.md 5/C16"),
